@@ -17,6 +17,12 @@ pub(crate) use uuid::Uuid;
 mod macros;
 pub(crate) mod leaf_common;
 pub(crate) mod shape_common;
+#[cfg(any(verif_unit = "all", verif_unit = "messages_0", verif_unit = "messages_1", verif_unit = "messages_2", verif_unit = "messages_3", verif_unit = "messages_4", verif_unit = "messages_5", verif_unit = "packetizer"))]
+pub(crate) mod messages_common;
+#[cfg(any(verif_unit = "all", verif_unit = "messages_0", verif_unit = "messages_1", verif_unit = "messages_2", verif_unit = "messages_3", verif_unit = "messages_4", verif_unit = "messages_5"))]
+mod messages_gen;
+#[cfg(any(verif_unit = "all", verif_unit = "packetizer"))]
+mod packetizer;
 
 #[cfg(any(verif_unit = "all", verif_unit = "buf_ext"))]
 mod buf_ext;
@@ -124,5 +130,5 @@ mod probe;
 mod shapes_basic;
 #[cfg(any(verif_unit = "all", verif_unit = "shapes_keys"))]
 mod shapes_keys;
-#[cfg(any(verif_unit = "all", verif_unit = "shapes_struct"))]
+#[cfg(any(verif_unit = "all", verif_unit = "shapes_struct", verif_unit = "shapes_struct_t"))]
 mod shapes_struct;
